@@ -225,54 +225,4 @@ def run(ctx):
     return EXPLANATION
 
 
-def _dominating_facts(A, fn, node, with_lines=False, all_blocks=False):
-    """facts {(atom, truth)} holding on every path from entry to the element containing `node` (P2), computed by forward dataflow on the CFG.
-    with_lines: facts are (atom, truth, line of the branch); all_blocks: return (IN map, target block)"""
-    v = A.view(fn)
-    target = None
-    for b in v.blocks:
-        for eid in b.get('e', []):
-            if any(n is node for n in ex.walk(fn['elems'][eid]['x'])):
-                target = b['id']
-    if target is None:
-        return set()
-    # forward must-analysis: IN[b] = intersection over predecessors of OUT[p] + edge fact (no kill: facts about fields are trusted between tests)
-    preds = {}
-    for b in v.blocks:
-        ss = b.get('s', [])
-        for i, s_ in enumerate(ss):
-            if s_ is None:
-                continue
-            fact = None
-            t = b.get('t')
-            if t and len(ss) == 2 and t.get('k') != 'SwitchStmt':
-                ap = v.cond_atom(b['id'])
-                if ap is not None:
-                    fact = (ap[0], (i == 0) == ap[1], t.get('l', 0)) if with_lines else (ap[0], (i == 0) == ap[1])
-            preds.setdefault(s_, []).append((b['id'], fact))
-    IN = {}
-    entry = fn['entry']
-    IN[entry] = set()
-    changed = True
-    order = sorted((b['id'] for b in v.blocks), reverse=True)
-    while changed:
-        changed = False
-        for b in order:
-            if b == entry:
-                continue
-            acc = None
-            for p, fact in preds.get(b, ()):  # noqa
-                if p not in IN:
-                    continue
-                s_ = set(IN[p])
-                if fact:
-                    s_.add(fact)
-                acc = s_ if acc is None else (acc & s_)
-            if acc is None:
-                continue
-            if IN.get(b) != acc:
-                IN[b] = acc
-                changed = True
-    if all_blocks:
-        return IN, target
-    return IN.get(target, set())
+from ..lib import dominating_facts as _dominating_facts  # noqa: E402,F401
